@@ -64,3 +64,23 @@ def c14_label_index(repo):
     doubles = _literal(_find_assign(tree, "DOUBLE_TRANSPORTER_CASES"), env)
     labels = sorted(set().union(*env.values()) | set(fused) | {l for case in doubles for l in case} | set(C14_NAMED))
     return labels, env
+
+
+# ---------------------------------------------------------------- C15: codon tables
+def c15_tables(repo):
+    tree = _module(repo, "antismash/common/all_orfs.py")
+    out = ["(* --- C15: antismash/common/all_orfs.py --- *)\n"]
+    info = {}
+    for name in ("START_CODONS", "STOP_CODONS"):
+        val = _literal(_find_assign(tree, name))
+        if not isinstance(val, (tuple, list, set)) or not all(isinstance(v, str) and len(v) == 3 for v in val):
+            raise TableError(f"{name} is not a collection of 3-letter strings")
+        vals = sorted(val)
+        out.append(f"Definition c15_{name.lower()} : list (list Z) := [" +
+                   "; ".join("[" + "; ".join(str(ord(ch)) for ch in codon) + "]" for codon in vals) + "].\n")
+        info["c15_" + name.lower()] = vals
+    out.append("\n")
+    return "".join(out), info
+
+
+table(c15_tables)
